@@ -103,6 +103,8 @@ class ImmutabilityMonitor(Monitor):
         return ok
 
     def _check(self, ev, raised):
+        if ev.kind == 'tracer' and ev.name in ('pushforward', 'function') and getattr(self.ctx, 'program_writes_input', False):
+            return            # the recorded program itself assigns into its argument: evaluating it does what the program does
         allowed = self._allowed(ev)
         ncmp = 0
         mutable = [(o.data if isinstance(o, UTPM) else o) for (pth, o, _) in ev.snaps if any(pth[:len(a)] == a for a in allowed)]
@@ -204,7 +206,7 @@ class DirectionMonitor(Monitor):
                 err = np.abs(a[:, p:p + 1] - b).reshape(b.shape[0], -1).max(axis=1) if b.size else np.zeros(b.shape[0])
                 if not np.all(err <= self.TOL * _epsfac(full, [c for (_, _, c) in ev.snaps]) * s):
                     d_bad = int(np.argmax(err / s))
-                    self.ctx.violation('direction:%s:value' % ev.name, {'call': ev.name, 'direction': p, 'P': P, 'first_bad_order': d_bad,
+                    self.ctx.violation('direction:%s:value%s' % (ev.name, getattr(self.ctx, 'direction_tag', '')), {'call': ev.name, 'direction': p, 'P': P, 'first_bad_order': d_bad,
                                                                        'err_over_scale': float(np.max(err / s))}); return
                 self.ctx.noise['direction'] = max(self.ctx.noise.get('direction', 0.0), float(np.max(err / s)))
         self.ctx.ok('direction:' + ev.name, ('dir', ev.name, P, tuple(c.shape[2:] for (_, _, c) in ua)))
@@ -435,7 +437,16 @@ class ZerothMonitor(Monitor):
             return v
         x0, y0 = z(0, a), z(1, b)
         try:
-            want = bool(np.all(CMP[ev.name](x0, y0)))
+            # NumPy's comparison of the values, direction by direction (the leading axis of a polynomial's zeroth coefficient is the
+            # direction axis: it must not take part in the broadcasting of the value axes)
+            xu, yu = isinstance(a, UTPM), isinstance(b, UTPM)
+            Px = np.shape(x0)[0] if xu else 1
+            Py = np.shape(y0)[0] if yu else 1
+            want = True
+            for pp in range(max(Px, Py)):
+                xp = x0[min(pp, Px - 1)] if xu else x0
+                yp = y0[min(pp, Py - 1)] if yu else y0
+                want = want and bool(np.all(CMP[ev.name](xp, yp)))
         except Exception:
             self.ctx.skip('numpy-rejects:' + ev.name); return
         if bool(res) != want:
